@@ -329,14 +329,207 @@ CLOther == <<
     <<SFun("w", <<"p">>, <<SVar1("v", I(1)), SRet(Arrow(<<"q">>, <<Set("v", Plus(Var("v"), Var("q"))), SRet(Plus(Var("v"), Var("p")))>>))>>),
       SVar1("a1", Call(Var("w"), <<I(10)>>)), SLog(Call(Var("a1"), <<I(1)>>)), SLog(Call(Var("a1"), <<I(2)>>)), SLog(Call(Call(Var("w"), <<I(20)>>), <<I(5)>>))>>
   >>
+\* typeof of a name the compiler resolves to a captured local (cell), a variable written through a closure, a captured
+\* parameter, an undeclared name, a hoisted function, a variable not yet initialised - in functions and in arrows
+FnL(lvl, params, body) == IF lvl = "arrow" THEN Arrow(params, body) ELSE Fun("", params, body)
+CLTypeof == <<
+    <<SFun("w", <<>>, <<SVar1("x", I(5)), SVar1("g", Getter("x")), SRet(TypeOf(Var("x")))>>), SLog(Call(Var("w"), <<>>))>>,
+    <<SFun("w", <<>>, <<SVar1("x", I(5)), SVar1("s", Fun("", <<>>, <<Set("x", EStr("s"))>>)), SLog(TypeOf(Var("x"))), SExpr(Call(Var("s"), <<>>)), SLog(TypeOf(Var("x")))>>),
+      SExpr(Call(Var("w"), <<>>))>>,
+    <<SFun("w", <<"p">>, <<SVar1("g", Getter("p")), SLog(TypeOf(Var("p"))), SRet(Var("g"))>>),
+      SExpr(Call(Var("w"), <<I(1)>>)), SExpr(Call(Var("w"), <<>>)), SExpr(Call(Var("w"), <<EStr("s")>>)), SLog(Call(Call(Var("w"), <<ENull>>), <<>>))>>,
+    <<SFun("w", <<>>, <<SVar1("x", I(1)), SVar1("g", Fun("", <<>>, <<SRet(Plus(TypeOf(Var("nope")), TypeOf(Var("x"))))>>)), SLog(TypeOf(Var("nope"))), SLog(Call(Var("g"), <<>>))>>),
+      SExpr(Call(Var("w"), <<>>))>>,
+    <<SFun("w", <<>>, <<SVar1("g", Fun("", <<>>, <<SRet(TypeOf(Var("h")))>>)), SLog(TypeOf(Var("h"))), SLog(Call(Var("g"), <<>>)), SFun("h", <<>>, <<>>)>>),
+      SExpr(Call(Var("w"), <<>>))>>,
+    <<SFun("w", <<>>, <<SVar1("g", Fun("", <<>>, <<SRet(TypeOf(Var("late")))>>)), SLog(TypeOf(Var("late"))), SLog(Call(Var("g"), <<>>)),
+                        SVar1("late", EBool(TRUE)), SLog(TypeOf(Var("late"))), SLog(Call(Var("g"), <<>>))>>),
+      SExpr(Call(Var("w"), <<>>))>>,
+    <<SFun("w", <<>>, <<SVar1("x", ENull), SVar1("g", Getter("x")), SLog(TypeOf(Var("x"))), Set("x", Arr(<<I(1)>>)), SLog(TypeOf(Var("x"))),
+                        Set("x", Var("g")), SLog(TypeOf(Var("x"))), Set("x", EUndef), SLog(TypeOf(Var("x"))), SLog(TypeOf(Call(Var("g"), <<>>)))>>),
+      SExpr(Call(Var("w"), <<>>))>>,
+    <<SVar1("w", Arrow(<<>>, <<SVar1("x", I(5)), SVar1("g", Arrow(<<>>, <<SRet(Var("x"))>>)), SRet(TypeOf(Var("x")))>>)), SLog(Call(Var("w"), <<>>))>>,
+    <<SVar1("w", Arrow(<<"p">>, <<SVar1("x", I(5)), SVar1("s", Arrow(<<>>, <<Set("x", EStr("s")), Set("p", EBool(TRUE))>>)), SLog(Plus(TypeOf(Var("x")), TypeOf(Var("p")))),
+                                  SExpr(Call(Var("s"), <<>>)), SLog(Plus(TypeOf(Var("x")), TypeOf(Var("p"))))>>)), SExpr(Call(Var("w"), <<I(1)>>))>>,
+    <<SFun("w", <<>>, <<SVar1("x", I(1)), SVar1("g", Arrow(<<>>, <<SRet(TypeOf(Var("x")))>>)), Set("x", EStr("s")), SRet(Call(Var("g"), <<>>))>>), SLog(Call(Var("w"), <<>>))>>,
+    <<SFun("w", <<>>, <<SVar1("x", I(1)), SRet(Fun("", <<>>, <<SRet(Arrow(<<>>, <<SRet(TypeOf(Var("x")))>>))>>))>>), SLog(Call(Call(Call(Var("w"), <<>>), <<>>), <<>>))>>,
+    <<SFun("w", <<>>, <<SVar1("g", NoE), SForIn(TRUE, "k", Obj(<<"a">>, <<I(1)>>), SBlock(<<Set("g", Getter("k"))>>)), SLog(TypeOf(Var("k"))), SLog(Call(Var("g"), <<>>))>>),
+      SExpr(Call(Var("w"), <<>>))>>
+  >>
 CLCases == {[k |-> "pair", kd |-> kd, op |-> op] : kd \in {"param", "local", "global", "outerparam"}, op \in CLOps}
            \cup {[k |-> "other", j |-> j] : j \in 1..Len(CLOther)}
-CLProg(c) == IF c.k = "pair" THEN CLPairProg(c.kd, c.op) ELSE Prog(CLOther[c.j] \o <<SLog(I(50))>>)
+           \cup {[k |-> "typeof", j |-> j] : j \in 1..Len(CLTypeof)}
+CLProg(c) == IF c.k = "pair" THEN CLPairProg(c.kd, c.op)
+             ELSE IF c.k = "typeof" THEN Prog(CLTypeof[c.j] \o <<SLog(I(50))>>)
+             ELSE Prog(CLOther[c.j] \o <<SLog(I(50))>>)
+
+\* ======================= family CH: where a closure is created (statement heads and bodies) ==============
+\* creation site x captured kind x access x level.  The function f (a function, or an arrow with arrow closures) has the
+\* statement under test; the closure(s) are made by the expression E = (g = closure) or (g = closure, h = closure):
+\*   rw  : g reads the variable after the outer code wrote it;   wr : g writes, the outer code reads;
+\*   inc : g and h both ++ the variable, the outer code reads it
+CHHeads == {"ifcond", "whilecond", "docond", "forinit", "forvarinit", "fortest", "forupd", "forinrhs", "forofrhs", "swdisc", "swcase", "ret", "throw"}
+CHBodies == {"varinit", "exprstmt", "ifbody", "elsebody", "whilebody", "dobody", "forbody", "forinbody", "forofbody", "swbody", "labelbody",
+             "trybody", "catchbody", "finbody"}
+CHKinds == {"param", "local", "outer"}
+CHAccs == {"rw", "wr", "inc"}
+CHLvls == {"fn", "arrow"}
+CHX(kd) == CASE kd = "param" -> "p" [] kd = "local" -> "v" [] kd = "outer" -> "u"
+CHMake(lvl, acc, x) ==
+  CASE acc = "rw" -> Asg("g", FnL(lvl, <<>>, <<SRet(Var(x))>>))
+    [] acc = "wr" -> Asg("g", FnL(lvl, <<"a">>, <<Set(x, Var("a"))>>))
+    [] acc = "inc" -> Comma(<<Asg("g", FnL(lvl, <<>>, <<SRet(Upd("++", TRUE, x))>>)), Asg("h", FnL(lvl, <<>>, <<SRet(Upd("++", FALSE, x))>>))>>)
+CHAfter(acc, x) ==
+  CASE acc = "rw" -> <<Set(x, Plus(Var(x), I(10))), SLog(Call(Var("g"), <<>>))>>
+    [] acc = "wr" -> <<SExpr(Call(Var("g"), <<I(7)>>)), SLog(Var(x))>>
+    [] acc = "inc" -> <<SLog(Call(Var("g"), <<>>)), SLog(Call(Var("h"), <<>>)), SLog(Var(x))>>
+CLt1 == Bin("<", Var("c"), I(1))
+CHStmt(site, E) ==
+  CASE site = "ifcond" -> <<SIf(E, SBlock(<<SLog(I(1))>>), NoS)>>
+    [] site = "whilecond" -> <<SWhile(And(CLt1, E), SBlock(<<Inc("c")>>))>>
+    [] site = "docond" -> <<SDo(SBlock(<<Inc("c")>>), And(E, CLt1))>>
+    [] site = "forinit" -> <<SFor(SExpr(E), CLt1, Upd("++", FALSE, "c"), SBlock(<<SLog(I(1))>>))>>
+    [] site = "forvarinit" -> <<SFor(SVar1("t", E), CLt1, Upd("++", FALSE, "c"), SBlock(<<SLog(I(1))>>))>>
+    [] site = "fortest" -> <<SFor(NoS, And(CLt1, E), Upd("++", FALSE, "c"), SBlock(<<SLog(I(1))>>))>>
+    [] site = "forupd" -> <<SFor(NoS, CLt1, E, SBlock(<<Inc("c")>>))>>
+    [] site = "forinrhs" -> <<SForIn(TRUE, "k", Obj(<<"a">>, <<E>>), SBlock(<<SLog(Var("k"))>>))>>
+    [] site = "forofrhs" -> <<SForOf(TRUE, "k", Arr(<<E>>), SBlock(<<SLog(TypeOf(Var("k")))>>))>>
+    [] site = "swdisc" -> <<SSwitch(E, <<Case(I(1), <<SLog(I(1))>>), Case(NoE, <<SLog(I(2))>>)>>)>>
+    [] site = "swcase" -> <<SSwitch(I(1), <<Case(E, <<SLog(I(1)), SBreak("")>>), Case(I(1), <<SLog(I(2))>>)>>)>>
+    [] site = "throw" -> <<STry(SBlock(<<SThrow(E)>>), "e", SBlock(<<SLog(TypeOf(Var("e")))>>), NoS)>>
+    [] site = "varinit" -> <<SVar1("t", E)>>
+    [] site = "exprstmt" -> <<SExpr(E)>>
+    [] site = "ifbody" -> <<SIf(CLt1, SBlock(<<SExpr(E)>>), NoS)>>
+    [] site = "elsebody" -> <<SIf(Bin("<", Var("c"), I(0)), SBlock(<<SLog(I(1))>>), SBlock(<<SExpr(E)>>))>>
+    [] site = "whilebody" -> <<SWhile(CLt1, SBlock(<<Inc("c"), SExpr(E)>>))>>
+    [] site = "dobody" -> <<SDo(SBlock(<<Inc("c"), SExpr(E)>>), CLt1)>>
+    [] site = "forbody" -> <<SFor(SVar1("i", I(0)), Bin("<", Var("i"), I(1)), Upd("++", FALSE, "i"), SBlock(<<SExpr(E)>>))>>
+    [] site = "forinbody" -> <<SForIn(TRUE, "k", Obj(<<"a">>, <<I(1)>>), SBlock(<<SExpr(E)>>))>>
+    [] site = "forofbody" -> <<SForOf(TRUE, "k", Arr(<<I(1)>>), SBlock(<<SExpr(E)>>))>>
+    [] site = "swbody" -> <<SSwitch(I(1), <<Case(I(0), <<SLog(I(1))>>), Case(I(1), <<SExpr(E)>>)>>)>>
+    [] site = "labelbody" -> <<SLabel("L", SBlock(<<SExpr(E), SBreak("L"), SLog(I(1))>>))>>
+    [] site = "trybody" -> <<STry(SBlock(<<SExpr(E)>>), "e", NoS, SBlock(<<SLog(I(1))>>))>>
+    [] site = "catchbody" -> <<STry(SBlock(<<SThrow(I(1))>>), "e", SBlock(<<SExpr(E)>>), NoS)>>
+    [] site = "finbody" -> <<STry(SBlock(<<SLog(I(1))>>), "e", NoS, SBlock(<<SExpr(E)>>))>>
+\* the body of f: the variable, the site statement, what the outer code does afterwards (for `return E` inside a finally block)
+CHBody(c) ==
+  LET x == CHX(c.kd)  E == CHMake(c.lvl, c.acc, x)  aft == CHAfter(c.acc, x) IN
+  (IF c.kd = "local" THEN <<SVar1("v", I(1))>> ELSE <<>>)
+  \o <<SVar(<<Decl("g", NoE), Decl("h", NoE), Decl("c", I(0))>>)>>
+  \o (IF c.site = "ret" THEN <<STry(SBlock(<<SRet(E)>>), "e", NoS, SBlock(aft))>> ELSE CHStmt(c.site, E) \o aft)
+  \o <<SRet(I(0))>>
+CHDef(c) == IF c.lvl = "arrow" THEN SVar1("f", Arrow(<<"p">>, CHBody(c))) ELSE SFun("f", <<"p">>, CHBody(c))
+CHProg(c) ==
+  IF c.kd = "outer"
+  THEN Prog(<<SFun("o", <<"q">>, <<SVar1("u", Var("q")), CHDef(c), SLog(TypeOf(Call(Var("f"), <<I(1)>>))), SLog(Var("u")),
+                                   SLog(TypeOf(Call(Var("f"), <<I(1)>>))), SRet(Var("u"))>>),
+              SLog(Call(Var("o"), <<I(1)>>)), SLog(Call(Var("o"), <<I(1)>>)), SLog(I(50))>>)
+  ELSE Prog(<<CHDef(c), SLog(TypeOf(Call(Var("f"), <<I(1)>>))), SLog(TypeOf(Call(Var("f"), <<I(1)>>))), SLog(I(50))>>)
+CHAll == [site : CHHeads \cup CHBodies, kd : CHKinds, acc : CHAccs, lvl : CHLvls]
+\* quick tier: every head position with the full product; every body position with every kind and level for `inc`
+CHCases == {c \in CHAll : ~Quick \/ c.site \in CHHeads \/ c.acc = "inc"}
+
+\* ======================= family IR: identifier resolution matrix ===========================================
+\* where the compiler resolves an identifier (op) x what the name is bound to (kd, bd) x level (function / arrow).
+\*   kd : local (no closure mentions it), cell (also captured by a closure g), free (the access is in a closure A of the
+\*        owner), pass (in a closure A of a closure M of the owner);  scr: the owner is the script (kd free = a global)
+\*   bd : how the name x is bound: var, parameter, catch parameter, function declaration, the loop head itself
+IRIv(op) == IF op = "call" THEN Fun("", <<"a">>, <<SRet(Plus(Var("a"), I(7)))>>) ELSE I(1)
+IROpS(op, x) ==
+  CASE op = "read" -> <<SLog(Var(x))>>
+    [] op = "write" -> <<SLog(Asg(x, I(5)))>>
+    [] op = "compound" -> <<SLog(CAsg("+", x, I(5))), SLog(CAsg("-", x, I(2)))>>
+    [] op = "update" -> <<SLog(Upd("++", FALSE, x)), SLog(Upd("--", TRUE, x)), SLog(Upd("++", TRUE, x)), SLog(Upd("--", FALSE, x)), SExpr(Upd("++", FALSE, x))>>
+    [] op = "typeof" -> <<SLog(TypeOf(Var(x)))>>
+    [] op = "call" -> <<SLog(Call(Var(x), <<I(3)>>))>>
+    [] op = "forin" -> <<SForIn(FALSE, x, Obj(<<"a", "b">>, <<I(1), I(2)>>), SBlock(<<SLog(Var(x))>>))>>
+    [] op = "forof" -> <<SForOf(FALSE, x, Arr(<<I(7), I(8)>>), SBlock(<<SLog(Var(x))>>))>>
+    [] op = "forinvar" -> <<SForIn(TRUE, x, Obj(<<"a", "b">>, <<I(1), I(2)>>), SBlock(<<SLog(Var(x))>>))>>
+    [] op = "forofvar" -> <<SForOf(TRUE, x, Arr(<<I(7), I(8)>>), SBlock(<<SLog(Var(x))>>))>>
+    [] op = "mix" -> <<SLog(Var(x)), Set(x, Plus(Var(x), I(1))), SLog(TypeOf(Var(x))), SLog(Upd("++", FALSE, x)), SLog(CAsg("+", x, I(5)))>>
+    [] op = "fmix" -> <<SLog(TypeOf(Var(x))), SLog(Call(Var(x), <<I(3)>>)), Set(x, Fun("", <<"a">>, <<SRet(Plus(Var("a"), I(100)))>>)), SLog(Call(Var(x), <<I(3)>>))>>
+    [] op = "self" -> <<SLog(TypeOf(Var(x))), SLog(Bin("===", Var(x), Var("O")))>>
+    [] op = "args" -> <<SLog(Dot(Var(x), "length")), SLog(Mem(Var(x), I(0)))>>
+IRInner(kd, lvl, x, ops) ==
+  CASE kd = "local" -> ops \o <<SLog(Var(x))>>
+    [] kd = "cell" -> <<SVar1("g", FnL(lvl, <<>>, <<SRet(Var(x))>>))>> \o ops \o <<SLog(Var(x)), SLog(Call(Var("g"), <<>>))>>
+    [] kd = "free" -> <<SVar1("A", FnL(lvl, <<>>, ops)), SExpr(Call(Var("A"), <<>>)), SLog(Var(x)), SExpr(Call(Var("A"), <<>>)), SLog(Var(x))>>
+    [] kd = "pass" -> <<SVar1("M", FnL(lvl, <<>>, <<SVar1("A", FnL(lvl, <<>>, ops)), SExpr(Call(Var("A"), <<>>))>>)), SExpr(Call(Var("M"), <<>>)), SLog(Var(x))>>
+IRBind(bd, iv, inner) ==
+  CASE bd = "var" -> <<SVar1("x", iv)>> \o inner
+    [] bd \in {"param", "head"} -> inner
+    [] bd = "catch" -> <<STry(SBlock(<<SThrow(iv)>>), "x", SBlock(inner), NoS)>>
+    [] bd = "fdecl" -> inner \o <<SFun("x", <<"a">>, <<SRet(Plus(Var("a"), I(7)))>>)>>
+IRProg(c) ==
+  LET iv == IRIv(c.op)
+      x == IF c.bd = "args" THEN "arguments" ELSE "x"
+      inner == IRInner(c.kd, c.lvl, x, IROpS(c.op, x))
+      args == IF c.bd = "param" THEN <<iv>> ELSE IF c.bd = "args" THEN <<I(4), I(5)>> ELSE <<>>
+  IN IF c.scr THEN Prog(IRBind(c.bd, iv, inner) \o <<SLog(I(50))>>)
+     ELSE IF c.bd = "fexpr" THEN Prog(<<SVar1("O", Fun("x", <<>>, inner)), SExpr(Call(Var("O"), <<>>)), SExpr(Call(Var("O"), <<>>)), SLog(I(50))>>)
+     ELSE IF c.bd = "args" THEN Prog(<<SVar1("O", Fun("", <<"p">>, inner)), SExpr(Call(Var("O"), args)), SExpr(Call(Var("O"), <<>>)), SLog(I(50))>>)
+     ELSE Prog(<<SVar1("O", FnL(c.lvl, IF c.bd = "param" THEN <<"x">> ELSE <<>>, IRBind(c.bd, iv, inner))),
+                 SExpr(Call(Var("O"), args)), SExpr(Call(Var("O"), args)), SLog(I(50))>>)
+IRKinds == {"local", "cell", "free", "pass"}
+IRLvls == {"fn", "arrow"}
+IRMatrix ==
+  [k : {"m"}, op : {"read", "write", "compound", "update", "typeof", "call", "forin", "forof"}, kd : IRKinds, bd : {"var"}, lvl : IRLvls, scr : {FALSE}]
+  \cup [k : {"m"}, op : {"read", "write", "compound", "update", "typeof", "call", "forin", "forof"}, kd : {"free", "pass"}, bd : {"var"}, lvl : IRLvls, scr : {TRUE}]
+  \cup [k : {"m"}, op : {"mix"}, kd : IRKinds, bd : {"param"}, lvl : IRLvls, scr : {FALSE}]
+  \cup [k : {"m"}, op : {"mix"}, kd : IRKinds, bd : {"catch"}, lvl : IRLvls, scr : BOOLEAN]
+  \cup [k : {"m"}, op : {"fmix"}, kd : IRKinds, bd : {"fdecl"}, lvl : IRLvls, scr : {FALSE}]
+  \cup [k : {"m"}, op : {"fmix"}, kd : {"free", "pass"}, bd : {"fdecl"}, lvl : IRLvls, scr : {TRUE}]
+  \cup [k : {"m"}, op : {"forinvar", "forofvar"}, kd : {"local", "cell"}, bd : {"head"}, lvl : IRLvls, scr : BOOLEAN]
+  \cup {c \in [k : {"m"}, op : {"self"}, kd : IRKinds, bd : {"fexpr"}, lvl : IRLvls, scr : {FALSE}] : c.kd = "local" => c.lvl = "fn"}
+  \cup [k : {"m"}, op : {"args"}, kd : IRKinds, bd : {"args"}, lvl : IRLvls, scr : {FALSE}]
+\* more: names bound twice (own name of a function vs var / parameter / inner declaration, shadowing), catch parameter
+\* per entry of the clause, `arguments` of arrows and of nested functions
+IRMore == <<
+    <<SFun("h", <<>>, <<SVar1("h", NoE), SLog(TypeOf(Var("h"))), Set("h", I(1)), SLog(Var("h"))>>), SExpr(Call(Var("h"), <<>>)), SLog(TypeOf(Var("h")))>>,
+    <<SVar1("f", Fun("me", <<>>, <<SLog(TypeOf(Var("me"))), SVar1("me", I(1)), SLog(Var("me"))>>)), SExpr(Call(Var("f"), <<>>)), SLog(TypeOf(Var("me")))>>,
+    <<SFun("h", <<>>, <<SVar1("h", NoE), SVar1("k", Fun("", <<>>, <<SRet(TypeOf(Var("h")))>>)), SLog(Call(Var("k"), <<>>)), Set("h", EStr("s")), SLog(Call(Var("k"), <<>>))>>),
+      SExpr(Call(Var("h"), <<>>))>>,
+    <<SVar1("f", Fun("me", <<"me">>, <<SRet(Var("me"))>>)), SLog(Call(Var("f"), <<I(3)>>))>>,
+    <<SVar1("f", Fun("me", <<>>, <<SFun("me", <<>>, <<SRet(I(1))>>), SRet(Call(Var("me"), <<>>))>>)), SLog(Call(Var("f"), <<>>))>>,
+    <<SFun("w", <<>>, <<SVar1("g", Fun("me", <<>>, <<SRet(Fun("", <<>>, <<SRet(TypeOf(Var("me")))>>))>>)), SVar1("me", I(3)),
+                        SLog(Call(Call(Var("g"), <<>>), <<>>)), SLog(Var("me"))>>), SExpr(Call(Var("w"), <<>>))>>,
+    \* the catch parameter is a fresh binding every time the clause is entered
+    <<SFun("w", <<>>, <<SVar1("fs", Arr(<<>>)),
+                        SFor(SVar1("i", I(0)), Bin("<", Var("i"), I(3)), Upd("++", FALSE, "i"),
+                             SBlock(<<STry(SBlock(<<SThrow(Var("i"))>>), "e", SBlock(<<SExpr(Call(Dot(Var("fs"), "push"), <<Getter("e")>>))>>), NoS)>>)),
+                        SRet(Var("fs"))>>),
+      SVar1("fs", Call(Var("w"), <<>>)), SLog(Call(Mem(Var("fs"), I(0)), <<>>)), SLog(Call(Mem(Var("fs"), I(2)), <<>>))>>,
+    <<SVar1("fs", Arr(<<>>)),
+      SFor(SVar1("i", I(0)), Bin("<", Var("i"), I(3)), Upd("++", FALSE, "i"),
+           SBlock(<<STry(SBlock(<<SThrow(Var("i"))>>), "e", SBlock(<<SExpr(Call(Dot(Var("fs"), "push"), <<Arrow(<<>>, <<SRet(Upd("++", TRUE, "e"))>>)>>))>>), NoS)>>)),
+      SLog(Call(Mem(Var("fs"), I(0)), <<>>)), SLog(Call(Mem(Var("fs"), I(2)), <<>>)), SLog(Call(Mem(Var("fs"), I(0)), <<>>))>>,
+    \* arguments: unbound in an arrow at script level; a nested function has its own
+    <<SVar1("a", Arrow(<<"p">>, <<SRet(TypeOf(Var("arguments")))>>)), SLog(Call(Var("a"), <<I(1)>>))>>,
+    <<SFun("w", <<"p">>, <<SVar1("g", Fun("", <<>>, <<SRet(Dot(Var("arguments"), "length"))>>)), SLog(Call(Var("g"), <<I(1), I(2)>>)), SLog(Dot(Var("arguments"), "length")),
+                           SVar1("k", Arrow(<<>>, <<SRet(Arrow(<<>>, <<SRet(Mem(Var("arguments"), I(0)))>>))>>)), SLog(Call(Call(Var("k"), <<I(8)>>), <<I(9)>>))>>),
+      SExpr(Call(Var("w"), <<I(5)>>))>>,
+    \* shadowing: an inner var / parameter / catch parameter of the same name is another variable
+    <<SFun("o", <<>>, <<SVar1("x", I(1)), SFun("m", <<>>, <<SVar1("x", I(2)), SRet(Fun("", <<>>, <<SRet(Upd("++", TRUE, "x"))>>))>>),
+                        SLog(Call(Call(Var("m"), <<>>), <<>>)), SLog(Var("x")), SVar1("g", Getter("x")), SLog(Call(Var("g"), <<>>))>>), SExpr(Call(Var("o"), <<>>))>>,
+    <<SFun("o", <<>>, <<SVar1("x", I(1)), SVar1("g", Fun("", <<"x">>, <<SRet(Arrow(<<>>, <<SRet(Upd("++", TRUE, "x"))>>))>>)), SVar1("k", Getter("x")),
+                        SLog(Call(Call(Var("g"), <<I(5)>>), <<>>)), SLog(Var("x")), SLog(Call(Var("k"), <<>>))>>), SExpr(Call(Var("o"), <<>>))>>,
+    <<SFun("o", <<>>, <<SVar1("x", I(1)), SVar1("k", Getter("x")), SVar1("g", NoE),
+                        STry(SBlock(<<SThrow(I(5))>>), "x", SBlock(<<Set("g", Arrow(<<>>, <<SRet(Upd("++", TRUE, "x"))>>)), Set("x", I(7))>>), NoS),
+                        SLog(Call(Var("g"), <<>>)), SLog(Var("x")), SLog(Call(Var("k"), <<>>))>>), SExpr(Call(Var("o"), <<>>))>>,
+    \* a closure over a variable declared later in a nested block of a loop; the same name captured at two levels
+    <<SFun("o", <<>>, <<SVar1("g", Getter("z")), SFor(SVar1("i", I(0)), Bin("<", Var("i"), I(2)), Upd("++", FALSE, "i"), SBlock(<<SIf(Bin("==", Var("i"), I(1)), SBlock(<<SVar1("z", I(9))>>), NoS), SLog(Call(Var("g"), <<>>))>>))>>),
+      SExpr(Call(Var("o"), <<>>))>>,
+    <<SFun("o", <<"x">>, <<SRet(Fun("", <<>>, <<SVar1("r", Upd("++", TRUE, "x")), SRet(Fun("", <<>>, <<SRet(Plus(Upd("++", TRUE, "x"), Var("r")))>>))>>))>>),
+      SVar1("m", Call(Var("o"), <<I(1)>>)), SVar1("a", Call(Var("m"), <<>>)), SVar1("b", Call(Var("m"), <<>>)), SLog(Call(Var("a"), <<>>)), SLog(Call(Var("b"), <<>>)), SLog(Call(Var("a"), <<>>))>>
+  >>
+IRCases == IRMatrix \cup {[k |-> "x", j |-> j] : j \in 1..Len(IRMore)}
+IRFamProg(c) == IF c.k = "m" THEN IRProg(c) ELSE Prog(IRMore[c.j] \o <<SLog(I(50))>>)
 
 \* ======================= the case space ===========================================================
 FamilyProg(cs) == CASE cs.fam = "CF" -> CFProg(cs.c) [] cs.fam = "SW" -> SWProg(cs.c) [] cs.fam = "EO" -> EOProg(cs.c.j)
                     [] cs.fam = "HO" -> HOProg(cs.c.j) [] cs.fam = "CV" -> CVProg(cs.c.j) [] cs.fam = "CL" -> CLProg(cs.c)
-Fams == IF "FAMS" \in DOMAIN IOEnv THEN IOEnv.FAMS ELSE "CF SW EO HO CV CL"
+                    [] cs.fam = "CH" -> CHProg(cs.c) [] cs.fam = "IR" -> IRFamProg(cs.c)
+Fams == IF "FAMS" \in DOMAIN IOEnv THEN IOEnv.FAMS ELSE "CF SW EO HO CV CL CH IR"
 Has(f) == \E j \in 1..(Len(Fams) - 1) : SubSeq(Fams, j, j + 1) = f
 AllCases == (IF Has("CF") THEN {[fam |-> "CF", c |-> c] : c \in CFCases} ELSE {})
             \cup (IF Has("SW") THEN {[fam |-> "SW", c |-> c] : c \in SWCases} ELSE {})
@@ -344,6 +537,8 @@ AllCases == (IF Has("CF") THEN {[fam |-> "CF", c |-> c] : c \in CFCases} ELSE {}
             \cup (IF Has("HO") THEN {[fam |-> "HO", c |-> [j |-> j]] : j \in 1..Len(HOBodies)} ELSE {})
             \cup (IF Has("CV") THEN {[fam |-> "CV", c |-> [j |-> j]] : j \in 1..Len(CVBodies)} ELSE {})
             \cup (IF Has("CL") THEN {[fam |-> "CL", c |-> c] : c \in CLCases} ELSE {})
+            \cup (IF Has("CH") THEN {[fam |-> "CH", c |-> c] : c \in CHCases} ELSE {})
+            \cup (IF Has("IR") THEN {[fam |-> "IR", c |-> c] : c \in IRCases} ELSE {})
 
 \* ======================= state machine around MiniJS ===============================================
 VARIABLES rec_i, cur, mst                \* rec_i: judged record; cur: enumerated case; mst: machine state
@@ -363,9 +558,9 @@ EnumEmit == ~Halted(mst) \/ PrintT(ToJson([fam |-> cur.fam, par |-> cur.c, prog 
 Recs == ndJsonDeserialize(IOEnv.OBS_FILE)                 \* [id, prog, devs, log, out, pos]
 \* named deviations (as-is rules of the engine for recorded findings); "*" selects all of them
 \* (the as-is rules of repaired defects - Dev_NoFnHoist, Dev_NoGlobalVarHoist, Dev_VarRedecl, Dev_SwitchDefaultOrder,
-\*  Dev_CallbackThrow, Dev_ErrorHierarchy, Dev_NoRuntimeLoc, Dev_NoLocInFunctions, Dev_LocNextStatement - stay in MiniJS as documentation of what
+\*  Dev_CallbackThrow, Dev_CatchParamScope, Dev_ErrorHierarchy, Dev_NoRuntimeLoc, Dev_NoLocInFunctions, Dev_LocNextStatement - stay in MiniJS as documentation of what
 \*  the snapshot did; they are no longer switched on, so a regression is a VIOLATION)
-AllDevs == {"Dev_CompletionTail", "Dev_CatchParamScope"}
+AllDevs == {"Dev_CompletionTail", "Dev_ArrowArguments", "Dev_OwnNameSlot", "Dev_CatchParamShared"}
 DevsOf(r) == LET S == {r.devs[j] : j \in 1..Len(r.devs)} IN IF "*" \in S THEN AllDevs ELSE S
 \* r.pos: [nid, line, column, statement line, statement column] per marked node (harness/render.py).  A location reported
 \* for node nid is right if it is the node's own position or the start of the statement that contains it
